@@ -15,3 +15,4 @@ import OdmlModel.Props.C04
 #print axioms C04.ctor_op_canonical
 #print axioms C04.new_id_op_canonical
 #print axioms C04.cleared_name_is_canonical_id
+#print axioms C04.names_never_empty_of_canonical
